@@ -120,6 +120,9 @@ SCRIPT_ALPHA = [_tk("d5"), _tk("d3"), _tk("t2"), _tk("o3"), _tk("z"), _tk("h"), 
                 _tk(""), _tk("", nan=1), _tk("", gap=1),
                 # a full stop glued to a closer, to a blank, doubled: only a token that trims to exactly "." is the period
                 _tk(".\""), _tk(".)"), _tk(". "), _tk("..")]
+SCRIPT_CORE = 39          # the first 39 kinds: every stream of <= 3 of them is enumerated; streams with a later kind are sampled
+# runs of two and three of the same punctuation character (`--`, `---`, `,,`): one token each in a caller's stream
+SCRIPT_ALPHA += [_tk("--"), _tk("---"), _tk(",,"), _tk("- -")]
 
 
 def render_tokens(specs):
@@ -140,16 +143,25 @@ def s_script(tier, seed, out):
     n = 0
     full = 3 if tier != "thorough" else 4
     thrs = [0.0, 5.0, 10.0, float("nan")] if tier != "thorough" else [float("nan"), float("-inf"), 0.0, 0.5, 3.0, 5.0, 10.0, float("inf")]
+    alpha = list(SCRIPT_ALPHA)
+    for c in _srcmine.special_chars():          # + doubled / tripled characters mined from the source (srcmine.py)
+        for t_ in (c, c * 2, c * 3):
+            if all(t_ != a[0] for a in alpha):
+                alpha.append(_tk(t_))
+    core = set(range(SCRIPT_CORE))
     for k in range(0, full + 1):
-        for seq in itertools.product(SCRIPT_ALPHA, repeat=k):
-            toks = render_tokens(seq)
+        for idx in itertools.product(range(len(alpha)), repeat=k):
+            # streams made of core kinds only: all of them; with a later kind: all up to length 2, a sixth of the longer ones
+            if k >= 3 and not all(i in core for i in idx) and dh(idx) % (6 if tier != "thorough" else 2) != 0:
+                continue
+            toks = render_tokens([alpha[i] for i in idx])
             for th in thrs:
                 out.write("scan\tscript\t%s\t%s\n" % (thr_bits(th), toks))
                 n += 1
     rng = SplitMix64(seed)
     for _ in range(20000 if tier != "thorough" else 300000):
         k = 4 + rng.below(9)
-        seq = [rng.choice(SCRIPT_ALPHA) for _ in range(k)]
+        seq = [rng.choice(alpha) for _ in range(k)]
         out.write("scan\tscript\t%s\t%s\n" % (thr_bits(rng.choice(THRS)), render_tokens(seq)))
         n += 1
     # streams whose length is a size mined from the source (srcmine.py)
